@@ -1,6 +1,8 @@
 package main
 
 import (
+	"errors"
+
 	"github.com/onflow/atree"
 )
 
@@ -51,14 +53,16 @@ func (w *World) OpArrayInsert(n *Node, idx uint64, vn *Node) error {
 	if err := w.beginOp(n, "array.insert"); err != nil {
 		return err
 	}
+	if w.SkipInvalid && idx > uint64(len(n.Elems)) {
+		return nil
+	}
 	err := n.Arr.Insert(idx, valueOf(vn))
 	w.endOp()
 	if idx > uint64(len(n.Elems)) {
 		if err == nil || !isIndexOOB(err) || !isUserError(err) {
 			return viol("ret-err", "Insert at %d of %d: expected index-out-of-bounds user error, got %v", idx, len(n.Elems), err)
 		}
-		w.stats.Rejected++
-		return nil
+		return w.rejected("Array.Insert")
 	}
 	if err != nil {
 		return viol("ret-err", "in-range Insert at %d of %d failed: %v", idx, len(n.Elems), err)
@@ -90,14 +94,16 @@ func (w *World) OpArraySet(n *Node, idx uint64, vn *Node) error {
 	if err := w.beginOp(n, "array.set"); err != nil {
 		return err
 	}
+	if w.SkipInvalid && idx >= uint64(len(n.Elems)) {
+		return nil
+	}
 	old, err := n.Arr.Set(idx, valueOf(vn))
 	w.endOp()
 	if idx >= uint64(len(n.Elems)) {
 		if err == nil || !isIndexOOB(err) || !isUserError(err) {
 			return viol("ret-err", "Set at %d of %d: expected index-out-of-bounds user error, got %v", idx, len(n.Elems), err)
 		}
-		w.stats.Rejected++
-		return nil
+		return w.rejected("Array.Set")
 	}
 	if err != nil {
 		return viol("ret-err", "in-range Set at %d of %d failed: %v", idx, len(n.Elems), err)
@@ -121,14 +127,16 @@ func (w *World) OpArrayRemove(n *Node, idx uint64) error {
 	if err := w.beginOp(n, "array.remove"); err != nil {
 		return err
 	}
+	if w.SkipInvalid && idx >= uint64(len(n.Elems)) {
+		return nil
+	}
 	old, err := n.Arr.Remove(idx)
 	w.endOp()
 	if idx >= uint64(len(n.Elems)) {
 		if err == nil || !isIndexOOB(err) || !isUserError(err) {
 			return viol("ret-err", "Remove at %d of %d: expected index-out-of-bounds user error, got %v", idx, len(n.Elems), err)
 		}
-		w.stats.Rejected++
-		return nil
+		return w.rejected("Array.Remove")
 	}
 	if err != nil {
 		return viol("ret-err", "in-range Remove at %d of %d failed: %v", idx, len(n.Elems), err)
@@ -149,14 +157,16 @@ func (w *World) OpArrayGet(n *Node, idx uint64) error {
 	if err := w.beginOp(n, "array.get"); err != nil {
 		return err
 	}
+	if w.SkipInvalid && idx >= uint64(len(n.Elems)) {
+		return nil
+	}
 	v, err := n.Arr.Get(idx)
 	w.endOp()
 	if idx >= uint64(len(n.Elems)) {
 		if err == nil || !isIndexOOB(err) || !isUserError(err) {
 			return viol("ret-err", "Get at %d of %d: expected index-out-of-bounds user error, got %v", idx, len(n.Elems), err)
 		}
-		w.stats.Rejected++
-		return nil
+		return w.rejected("Array.Get")
 	}
 	if err != nil {
 		return viol("ret-err", "in-range Get at %d of %d failed: %v", idx, len(n.Elems), err)
@@ -234,13 +244,46 @@ func (w *World) OpMapSet(n *Node, key *Node, vn *Node) error {
 	if err := w.beginOp(n, "map.set"); err != nil {
 		return err
 	}
-	old, err := n.Map.Set(w.cb.Compare, w.cb.HashInput, scalarValue(key), valueOf(vn))
-	w.endOp()
-	if err != nil {
-		return viol("ret-err", "Map.Set failed: %v", err)
-	}
 	ks := keyString(key)
 	e, existed := n.M[ks]
+	expectRefusal := false
+	if w.ExpectRefusal != nil {
+		exhausted := w.ExpectRefusal(n, key)
+		if existed {
+			if exhausted {
+				w.stats.Extra["updates-at-exhausted-budget"]++
+			}
+		} else {
+			expectRefusal = exhausted
+		}
+	}
+	if w.SkipInvalid && expectRefusal {
+		return w.discardUnused(vn)
+	}
+	old, err := n.Map.Set(w.cb.Compare, w.cb.HashInput, scalarValue(key), valueOf(vn))
+	w.endOp()
+	if expectRefusal {
+		var cle *atree.CollisionLimitError
+		if err == nil || !errors.As(err, &cle) || !isFatalError(err) {
+			return viol("limit-accept", "insert of new key %s exceeds the collision limit but Map.Set returned %v", key, err)
+		}
+		if w.st.OpStores+w.st.OpRemoves+w.st.OpGenerates != 0 {
+			return viol("reject-trace", "refused Map.Set issued %d stores, %d removes, %d id allocations", w.st.OpStores, w.st.OpRemoves, w.st.OpGenerates)
+		}
+		w.stats.Rejected++
+		w.stats.Extra["collision-limit-refusals"]++
+		if err := w.checkMapCount(n, "after refused Map.Set"); err != nil {
+			return err
+		}
+		return w.discardUnused(vn)
+	}
+	if err != nil {
+		var cle *atree.CollisionLimitError
+		if errors.As(err, &cle) {
+			return viol("limit-refuse", "Map.Set(%s) (existing key: %v) refused with a collision-limit error although the budget is not exhausted: %v", key, existed, err)
+		}
+		return viol("ret-err", "Map.Set failed: %v", err)
+	}
 	if existed {
 		oldNode := e.Val
 		e.Val = vn
@@ -272,10 +315,13 @@ func (w *World) OpMapRemove(n *Node, key *Node) error {
 	if err := w.beginOp(n, "map.remove"); err != nil {
 		return err
 	}
-	ks, vs, err := n.Map.Remove(w.cb.Compare, w.cb.HashInput, scalarValue(key))
-	w.endOp()
 	kstr := keyString(key)
 	e, existed := n.M[kstr]
+	if w.SkipInvalid && !existed {
+		return nil
+	}
+	ks, vs, err := n.Map.Remove(w.cb.Compare, w.cb.HashInput, scalarValue(key))
+	w.endOp()
 	if !existed {
 		if err == nil || !isKeyNotFound(err) || !isUserError(err) {
 			return viol("ret-err", "Map.Remove of an absent key: expected key-not-found user error, got %v", err)
@@ -309,6 +355,9 @@ func (w *World) OpMapGet(n *Node, key *Node) error {
 	w.logOp("mget %s {%s}", n, key)
 	if err := w.beginOp(n, "map.get"); err != nil {
 		return err
+	}
+	if _, present := n.M[keyString(key)]; w.SkipInvalid && !present {
+		return nil
 	}
 	v, err := n.Map.Get(w.cb.Compare, w.cb.HashInput, scalarValue(key))
 	w.endOp()
@@ -478,6 +527,15 @@ func (w *World) Reopen() error {
 		if err := w.reopenRoot(r, dids[i], w.st); err != nil {
 			return err
 		}
+	}
+	return nil
+}
+
+// rejected records a correctly categorised rejected request and checks that it left no trace in the storage.
+func (w *World) rejected(what string) error {
+	w.stats.Rejected++
+	if w.st.OpStores+w.st.OpRemoves+w.st.OpGenerates != 0 {
+		return viol("reject-trace", "rejected %s issued %d stores, %d removes, %d id allocations", what, w.st.OpStores, w.st.OpRemoves, w.st.OpGenerates)
 	}
 	return nil
 }
